@@ -115,15 +115,41 @@ func dpnEncodeNames(hexNames []string) []byte {
 	return out
 }
 
-// dpnNormTerm: the term of a message with every FRESH label set (no original
-// bytes) replaced by its decoded form: same names, original = their wire form.
-// What a trip over the wire is specified to return (C02_roundtrip_fresh).
+// dpnNormTerm: the term of a message with every label set replaced by what a
+// trip over the wire is specified to return for it (C02_roundtrip_fresh, Lean
+// normLabels): same names; original = the bytes ToBytes emits for the set, which
+// are the retained original bytes when there are some and they still read (by the
+// reference decoder of stream_label.go) as exactly these names - a decoded,
+// untouched set - or do not read as names at all, and the hand-written wire form
+// of the names otherwise (fresh sets, and decoded sets edited since).
 func dpnNormTerm(term string) string {
-	return dpnReFreshLabels.ReplaceAllStringFunc(term, func(m string) string {
-		names := dpnReFreshLabels.FindStringSubmatch(m)[1]
+	return dpnReAnyLabels.ReplaceAllStringFunc(term, func(m string) string {
+		sm := dpnReAnyLabels.FindStringSubmatch(m)
+		orig, names := sm[1], sm[2]
 		var hs []string
 		if names != "" {
 			hs = strings.Split(names, ";")
+		}
+		if orig != "nil" {
+			ob := []byte{}
+			if orig != "-" {
+				ob = unhx(orig)
+			}
+			got, ok := refDecode(ob)
+			if !ok {
+				return m
+			}
+			same := len(got) == len(hs)
+			for i := 0; same && i < len(hs); i++ {
+				h := hs[i]
+				if h == "-" {
+					h = ""
+				}
+				same = got[i] == string(unhx(h))
+			}
+			if same {
+				return m
+			}
 		}
 		return "L(" + hx(dpnEncodeNames(hs)) + ",[" + names + "])"
 	})
@@ -131,20 +157,28 @@ func dpnNormTerm(term string) string {
 
 var dpnReAnyLabels = regexp.MustCompile(`L\(([0-9a-f]+|-|nil),\[([0-9a-f;-]*)\]\)`)
 
-// dpnLabelsFreshOrDecoded: every label set of the term is fresh or carries
-// exactly the wire form of its names (decoded and not edited since): the
-// domain of C02_roundtrip_fresh as far as label sets go.
-func dpnLabelsFreshOrDecoded(term string) bool {
+// dpnLabelsValid: every name of every label set of the term is a valid name
+// (1..63-octet labels, no empty label, at most 253 characters, not empty): the
+// domain of C02_roundtrip_fresh as far as label sets go (fresh, decoded, or
+// decoded and edited since).
+func dpnLabelsValid(term string) bool {
 	for _, m := range dpnReAnyLabels.FindAllStringSubmatch(term, -1) {
-		if m[1] == "nil" {
+		if m[2] == "" {
 			continue
 		}
-		var hs []string
-		if m[2] != "" {
-			hs = strings.Split(m[2], ";")
-		}
-		if m[1] != hx(dpnEncodeNames(hs)) {
-			return false
+		for _, h := range strings.Split(m[2], ";") {
+			if h == "-" {
+				return false
+			}
+			name := string(unhx(h))
+			if len(name) == 0 || len(name) > 253 {
+				return false
+			}
+			for _, part := range strings.Split(name, ".") {
+				if len(part) < 1 || len(part) > 63 {
+					return false
+				}
+			}
 		}
 	}
 	return true
@@ -300,8 +334,8 @@ func oracleC02(r *Rng, n int, thorough bool, seeds []string) *OracleResult {
 			}
 			// originals included: the decoded message is m with every fresh label set in
 			// its decoded form (names kept, original = their wire form), nothing else changed
-			if want, got := dpnNormTerm(sxMsg6(m)), sxMsg6(m2); dpnLabelsFreshOrDecoded(sxMsg6(m)) && want != got {
-				what, class = "FromBytes(ToBytes(m)) is not m with its fresh label sets decoded: "+firstDiff(want, got), "v6-roundtrip-labels"
+			if want, got := dpnNormTerm(sxMsg6(m)), sxMsg6(m2); dpnLabelsValid(sxMsg6(m)) && want != got {
+				what, class = "FromBytes(ToBytes(m)) is not m with its label sets in decoded form: "+firstDiff(want, got), "v6-roundtrip-labels"
 				return
 			}
 			// "as read by an independently written decoder": the RFC reading of
